@@ -72,4 +72,12 @@ def setup(log):
         if not ok:
             log(msg)
             rc = 1
+    # exact 4-man tables for C06 (oracle only, independent of /repo); optional: C06 falls back to the solver
+    if rc == 0:
+        t0 = time.time()
+        p = subprocess.run([f"{TARGET}/checked/release/wv", "tb4-build"], stdout=subprocess.PIPE, stderr=subprocess.STDOUT)
+        for l in p.stdout.decode("utf8", "replace").splitlines():
+            if l.startswith("tb4"):
+                log("[setup] " + l)
+        log(f"[setup] 4-man tables: {time.time() - t0:.0f}s")
     return rc
